@@ -370,6 +370,21 @@ def t_conn_parallel_absent():
     return g.set_start_nodes({r}), dict(sel=[c1], conn=[cc], src=s, tgt=t)
 
 
+def t_conn_parallel_required():
+    """a target that takes exactly two connections and allows parallel ones: with the second source absent the only
+    valid set is two parallel connections from the permanent source"""
+    B, N, CN, *_ = _imp()
+    g = B()
+    r = N('R')
+    a = [N('A0'), N('A1')]
+    s = [CN('S0', deg_list=[0, 1, 2], repeated_allowed=True), CN('S1', deg_spec='?')]
+    t = [CN('T0', deg_list=[2], repeated_allowed=True)]
+    c1 = g.add_selection_choice('C1', r, a)
+    g.add_edges([(r, s[0]), (a[1], s[1]), (r, t[0])])
+    cc = g.add_connection_choice('K', s, t)
+    return g.set_start_nodes({r}), dict(sel=[c1], conn=[cc], src=s, tgt=t)
+
+
 def t_conn_group():
     """grouping connector over a permanent member [1] and an option-tied member 1..* (round-0 validator finding)"""
     B, N, CN, G, *_ = _imp()
@@ -717,7 +732,7 @@ TEMPLATES = {
     'two_indep': t_two_indep, 'nested': t_nested, 'nested3': t_nested3, 'incompat': t_incompat, 'incompat3': t_incompat3, 'shared_option': t_shared_option, 'forced': t_forced,
     'dv': t_dv, 'dv_single': t_dv_single, 'dv_or_existence': t_dv_or_existence, 'dv_linked': t_dv_linked, 'dv_linked_late': t_dv_linked_late, 'dv_linked_interleaved': t_dv_linked_interleaved, 'dv_or_direct': t_dv_or_direct, 'dv_same_name': t_dv_same_name, 'dv_linked3_cond': t_dv_linked3_cond, 'sel_linked': t_sel_linked, 'sel_forced_linked': t_sel_forced_linked, 'sel_linked_nested': t_sel_linked_nested, 'sel_linked_incompat': t_sel_linked_incompat,
     'conn_simple': t_conn_simple, 'conn_cond': t_conn_cond, 'conn_opt_src': t_conn_opt_src,
-    'conn_infeasible_scenario': t_conn_infeasible_scenario, 'conn_infeasible_dv': t_conn_infeasible_dv, 'conn_rows_eq_combs': t_conn_rows_eq_combs, 'conn_cond_choice_dv': t_conn_cond_choice_dv, 'conn_parallel_absent': t_conn_parallel_absent, 'conn_group': t_conn_group,
+    'conn_infeasible_scenario': t_conn_infeasible_scenario, 'conn_infeasible_dv': t_conn_infeasible_dv, 'conn_rows_eq_combs': t_conn_rows_eq_combs, 'conn_cond_choice_dv': t_conn_cond_choice_dv, 'conn_parallel_absent': t_conn_parallel_absent, 'conn_parallel_required': t_conn_parallel_required, 'conn_group': t_conn_group,
     'conn_group_finite': t_conn_group_finite, 'conn_group_open': t_conn_group_open, 'conn_group_open2': t_conn_group_open2, 'conn_excl': t_conn_excl, 'conn_two': t_conn_two, 'conn_two_exclusive': t_conn_two_exclusive, 'conn_dv': t_conn_dv,
     'conn_excl_shift': t_conn_excl_shift, 'conn_two_infeasible': t_conn_two_infeasible,
     'conn_group_no_counterpart': t_conn_group_no_counterpart, 'conn_cond_choice': t_conn_cond_choice,
